@@ -314,6 +314,37 @@ func c06Grid(t *testing.T, tier string, shard, shards int, c *h.Collector) {
 // cloud minimum edited while escalator runs.
 func c06HistScenarios(tier string) []*h.Scenario {
 	var out []*h.Scenario
+	// a fixed-name pod is deleted and re-created with other requests between two scans: the band follows
+	// the pod as listed now
+	{
+		g := StdGroup("g1")
+		g.Opts.MinNodes = 1
+		g.Opts.MaxNodes, g.ASG.Max = 10, 10
+		resize := func(cpu int64) h.Event {
+			return h.Event{Label: fmt.Sprintf("pod-recreated-same-name(%dm)", cpu), Apply: func(hh *h.Hist) {
+				for _, p := range hh.W.Pods {
+					if h.PodInGroup(p, &g) {
+						p.Spec.Containers[0].Resources.Requests[v1.ResourceCPU] = *resource.NewMilliQuantity(cpu, resource.DecimalSI)
+						p.UID = p.UID + "r"
+						return
+					}
+				}
+			}}
+		}
+		s := &h.Scenario{Name: "c06.pod-recreated", Groups: []h.GroupSpec{g}, Slots: 5, Quantum: Q, MaxEventsPerSlot: 1,
+			Init: func(hh *h.Hist) {
+				a := InitASGs(hh)[0]
+				for i := 0; i < 4; i++ {
+					hh.W.AddNode(a, sim.NodeOpt{Age: time.Duration(20+i) * Q})
+				}
+				hh.W.AddPod(podOn(g, hh.W.Nodes[0].Name, 2200)) // 55 %: no action
+			},
+			Events: func(hh *h.Hist, slot int) []h.Event {
+				return []h.Event{resize(1000), resize(3500), resize(100), resize(2200), evRestart()}
+			},
+		}
+		out = append(out, s)
+	}
 	// a group in dry mode by its own option (the controller flag is off) and by the global flag: a node
 	// it dry-tainted no longer counts, so the next scans sit in other bands (35 % -> 43.75 % -> ...)
 	for _, global := range []bool{false, true} {
